@@ -207,6 +207,8 @@ func (f *forger) lieCommit(kind string, h int64, arg int) (*types.Commit, string
 			c.Signatures[j].ValidatorAddress = lib.Key(300 + arg).PubKey().Address()
 		}
 		return c, kind
+	case "commit-nil-addr-member", "commit-nil-addr-unknown", "commit-nil-wrong-index", "commit-forblock-swapped":
+		return f.relabelled(kind, h, arg)
 	case "commit-forged":
 		return signCommit(chainID, vals, prev, canon.Round, id, base, func(i int) crypto.PrivKey { return lib.Key(200 + i) }, allCommit), kind
 	case "commit-short":
@@ -272,6 +274,87 @@ func (f *forger) lieCommit(kind string, h int64, arg int) (*types.Commit, string
 		return signCommit(chainID, vals, prev, canon.Round+int32(arg%2), id, base.Add(time.Duration(arg)*time.Millisecond), real, allCommit), kind
 	}
 	panic("unknown commit lie " + kind)
+}
+
+// relabelled: commits in which every signature is GENUINE (somebody in the validator set really signed exactly that
+// vote) but one slot does not belong where it stands. The base keeps the canonical commit's own nil votes (absent
+// slots are filled with for-block votes), so genuine nil votes sit next to the misplaced one.
+//
+//	commit-nil-addr-member    slot j: validator j's genuine precommit for nil, filed under validator k's address
+//	commit-nil-addr-unknown   slot j: validator j's genuine precommit for nil, filed under an address outside the set
+//	commit-nil-wrong-index    slot j: validator k's genuine precommit for nil (k's address), standing at index j
+//	commit-forblock-swapped   slot j: validator k's genuine precommit for the block, filed under j's address
+//
+// j is a slot the quorum does not need (and, for the for-block swap, behind the +2/3 prefix when there is one).
+func (f *forger) relabelled(kind string, h int64, arg int) (*types.Commit, string) {
+	prev := h - 1
+	vals := f.c.ValidatorsAt(prev)
+	id := f.c.IDs[prev]
+	canon := f.c.Commits[prev]
+	chainID := f.c.State.ChainID
+	base := f.c.Blocks[prev].Time.Add(2 * time.Second)
+	n := len(vals.Validators)
+	real := f.realKey(vals)
+	total := vals.TotalVotingPower()
+	flags := make([]types.BlockIDFlag, n)
+	var forBlock int64
+	for i, v := range vals.Validators {
+		flags[i] = types.BlockIDFlagCommit
+		if i < len(canon.Signatures) && canon.Signatures[i].BlockIDFlag == types.BlockIDFlagNil {
+			flags[i] = types.BlockIDFlagNil
+		} else {
+			forBlock += v.VotingPower
+		}
+	}
+	// the slot to misuse: already nil, or one whose power the quorum can spare
+	j := -1
+	for off := 0; off < n; off++ {
+		c := (arg + off) % n
+		if kind == "commit-forblock-swapped" {
+			if q := quorumPrefix(vals); q < n-1 && c <= q {
+				continue
+			}
+		}
+		if flags[c] == types.BlockIDFlagNil || (forBlock-vals.Validators[c].VotingPower)*3 > total*2 {
+			j = c
+			break
+		}
+	}
+	if j < 0 || n < 2 {
+		return f.lieCommit("commit-padded-addr", h, arg)
+	}
+	k := (j + 1 + arg%(n-1)) % n // another validator
+	if k == j {
+		k = (j + 1) % n
+	}
+	if kind != "commit-forblock-swapped" {
+		flags[j] = types.BlockIDFlagNil
+	} else {
+		flags[j] = types.BlockIDFlagCommit
+	}
+	c := signCommit(chainID, vals, prev, canon.Round, id, base, real, func(i int) types.BlockIDFlag { return flags[i] })
+	switch kind {
+	case "commit-nil-addr-member":
+		c.Signatures[j].ValidatorAddress = vals.Validators[k].Address
+	case "commit-nil-addr-unknown":
+		c.Signatures[j].ValidatorAddress = lib.Key(300 + arg).PubKey().Address()
+	case "commit-nil-wrong-index", "commit-forblock-swapped":
+		// validator k's own genuine vote (same timestamp as slot j would carry), moved into slot j
+		vote := &types.Vote{Type: tmproto.PrecommitType, Height: prev, Round: canon.Round, Timestamp: c.Signatures[j].Timestamp,
+			ValidatorAddress: vals.Validators[k].Address, ValidatorIndex: int32(k)}
+		if kind == "commit-forblock-swapped" {
+			vote.BlockID = id
+		}
+		sig, err := real(k).Sign(types.VoteSignBytes(chainID, vote.ToProto()))
+		if err != nil {
+			panic(err)
+		}
+		c.Signatures[j].Signature = sig
+		if kind == "commit-nil-wrong-index" {
+			c.Signatures[j].ValidatorAddress = vals.Validators[k].Address
+		}
+	}
+	return c, kind
 }
 
 // lie is one produced response.
